@@ -294,6 +294,48 @@ def h_display(d: Decl, props, spec, idx):
                    clause='Display::fmt(&x, f) == Display::fmt(&x.inner, f) for the same Formatter f: same width/precision/flags/fill/alignment, one call, same output')
 
 
+def h_into_iter(d: Decl, props):
+    S = concrete_self(d)
+    body = ('        let raw: [i32; 3] = kani::any();\n' + obtain(d, 'v', 'raw') +
+            '        let inner = ref_%s::sanitize(raw);\n' % d.id +
+            '        { let mut n = 0usize; for x in &v { assert!(n < 3 && *x == inner[n], "by-reference iteration yields exactly the stored elements, in order"); n += 1; } assert!(n == 3, "by-reference iteration yields every element"); }\n'
+            '        { let mut n = 0usize; for x in v { assert!(n < 3 && x == inner[n], "by-value iteration yields exactly the stored elements, in order"); n += 1; } assert!(n == 3, "by-value iteration yields every element"); }\n')
+    return Harness(d, 'IntoIterator::into_iter (by value and by reference)', props, body, attrs='#[kani::unwind(5)]\n    ',
+                   clause='iteration over x / &x yields exactly the elements of the stored inner collection (inner type [i32; 3], symbolic elements)')
+
+
+def h_string_hash_ord(d: Decl, props, a, b):
+    S = concrete_self(d)
+    body = (obtain(d, 'x', 'String::from(%s)' % a) + obtain(d, 'y', 'String::from(%s)' % b) +
+            '        use ::core::hash::Hash;\n'
+            '        let sx = ref_%s::sanitize(String::from(%s)); let sy = ref_%s::sanitize(String::from(%s));\n' % (d.id, a, d.id, b) +
+            '        let mut h1 = RecHasher::new(); let mut h2 = RecHasher::new(); let mut h3 = RecHasher::new();\n'
+            '        x.hash(&mut h1);\n'
+            '        { let s: &str = ::core::borrow::Borrow::borrow(&x); s.hash(&mut h2); assert!(s == sx.as_str(), "Borrow<str> exposes the stored value"); }\n'
+            '        { let s: &String = ::core::borrow::Borrow::borrow(&x); s.hash(&mut h3); assert!(s == &sx, "Borrow<String> exposes the stored value"); }\n'
+            '        assert!(h1.n == h2.n && h1.n < 9 && h1.n == h3.n, "Hash feeds the hasher as the borrowed forms do");\n'
+            '        let mut i = 0; while i < h1.n && i < 8 { assert!(h1.log[i] == h2.log[i] && h1.log[i] == h3.log[i], "Hash feeds the hasher exactly what the borrowed str/String feed"); i += 1; }\n'
+            '        assert!((x == y) == (sx == sy) && x.partial_cmp(&y) == sx.partial_cmp(&sy) && x.cmp(&y) == sx.cmp(&sy), "comparisons agree with the inner strings");\n'
+            '        assert!(x.clone() == x, "clone is equal");\n')
+    return Harness(d, 'String Hash/Borrow/Ord (%s, %s)' % (a, b), props, body, attrs='#[kani::unwind(12)]\n    ',
+                   bounded='concrete strings only (symbolic strings do not finish in CBMC)',
+                   clause='hash(x) == hash(borrow(x)) for Borrow<str> and Borrow<String>; ==, partial_cmp, cmp agree with the inner strings')
+
+
+def view_extra_decls(tier='quick'):
+    pa = Custom(name='pred_arr', src='pred_arr', spec='')
+    sa = Custom(name='san_arr', src='san_arr', spec='')
+    out = [mk('iter_arr_nov', 'any', '[i32; 3]', derives=['Debug', 'IntoIterator']),
+           mk('iter_arr_san_pred', 'any', '[i32; 3]', sanitizers=[Sanitizer('with', sa)], validators=[Validator('predicate', fn=pa)],
+              aux=['arr_fns'], derives=['Debug', 'IntoIterator']),
+           mk('strv_tr_ne', 'string', 'String', sanitizers=[Sanitizer('trim')], validators=[Validator('not_empty')],
+              derives=['Debug', 'Clone', 'PartialEq', 'Eq', 'PartialOrd', 'Ord', 'Hash', 'Borrow'])]
+    for d in out:
+        d.verus = False
+        d.kani = True
+    return out
+
+
 def display_decls(tier='quick'):
     out = [mk('disp_probe_nov', 'any', 'Probe', aux=['Probe'], derives=['Debug', 'Display'])]
     for d in out:
@@ -1205,7 +1247,14 @@ def harnesses_for(prop, tier, seed):
         for d in dd:
             for i, spec in enumerate(DISPLAY_SPECS):
                 hs.append(h_display(d, [prop], spec, i))
-        decls = decls + dd
+        ve = view_extra_decls(tier)
+        for d in ve:
+            if 'IntoIterator' in d.derives:
+                hs.append(h_into_iter(d, [prop]))
+            if d.family == 'string':
+                hs.append(h_string_hash_ord(d, [prop], '" b "', '"a"'))
+                hs.append(h_string_hash_ord(d, [prop], '"ab"', '" ab"'))
+        decls = decls + dd + ve
     return decls, hs, extra
 
 
